@@ -2,7 +2,7 @@ import FcpptProofs.C14.Basic
 /-!
 # C14 — the matrix model denotes Mathlib's matrix operations
 -/
-namespace Fcppt.C14
+namespace Fcppt.C14.Lemma
 open Matrix
 
 /-! ## static results -/
@@ -102,4 +102,4 @@ theorem adjugate_eq : ∀ {n : Nat} (a : Mat n n), a.adjugate.toMatrix = a.toMat
     simp only [Mat.adjugate, Mat.toMatrix_apply, atRC_init]
     rw [det_eq, toMatrix_deleteRowAndColumn j i a, coeff_eq, add_comm]
 
-end Fcppt.C14
+end Fcppt.C14.Lemma
